@@ -71,6 +71,12 @@ CHECKS["C12"] = dict(engine="tlc+vdrive",
    text="TLC checks for 2 connections x 3-4 requests, pool 0/1/2: a connection is closed only after everything read from it was answered, no response is written to a closed connection, clients are notified, Shutdown returns only when drained or expired, and under fairness everything read is eventually answered and Shutdown drains (the early-release variant must violate this). Real servers (pool 0/1/2, queue 1/3, default timeouts) get 0-6 requests with handler durations up to 400 ms on 1-2 connections and are shut down 0-300 ms later; every run's event trace (hooks: read, invoked, written, closed, accept exit, pool released; clients: response, close notification, end of stream; Shutdown start/end) must be a behaviour of the spec and end with everything read answered.",
    design_ref="5/C12", note="Trusted: server hooks (self-tested each run); pool abstraction (GPool.tla checked separately by C19); wall clock only via the 4 s context vs <= 400 ms handlers. The window between reading a request and counting it (microseconds) is not modelled.")
 
+CHECKS["C17"] = dict(engine="tlc+confdrive",
+   technique="TLA+ reference semantics of the config document (Conf.tla: domain stack machine, proven equal to a declarative balance-counting characterisation by TLC over every document up to a bound); TLC-enumerated documents rendered and parsed by the real conf package, every getter on every path judged by TLC (Oracle_Conf)",
+   category="model_checking",
+   text="TLC checks on every abstract document up to the bound (incl. ill-nested and hostile ones) that the reference tree holds exactly the written keys (later duplicate wins, re-opened domains merge, comments/blank lines ignored) and that typed getters are total; it then enumerates documents (well-nested, unclosed, one mismatched close, one XML-hostile line) as implementation tests; the driver renders them with whitespace/comment/CRLF variants, parses them with InitFromString/InitFromBytes/NewConf and queries every getter on every path; the oracle requires: well-formed -> ok and equal to the reference; hostile/unclosed -> error or complete; never a panic (20k-200k arbitrary byte strings).",
+   design_ref="5/C17", note="Trusted: Conf.tla as the meaning of the format (statement's rules); where the statement is silent (key-only lines as keys, '0'/'1' booleans, sibling key/domain of one name) differences are observations.")
+
 PENDING = {}
 
 def main():
